@@ -84,7 +84,18 @@ func c19(c *Ctx) {
 	c.Before("cookie/after-upstream", ptt, p.PlainCalls("litefs.(*DB).Pos"), p.PlainCalls("net/http.(*Transport).RoundTrip"), 1,
 		"the position used for the cookie is read after the upstream call returned", "a position read before the write names a transaction older than the write: the next read may be served stale")
 	c.Guarded("cookie/not-passthrough", ptt, setCookie, gs(GP("p3", false)), 1, "no cookie for passthrough requests", "")
-	c.Guarded("cookie/write-only", ptt, setCookie, gs(GP("http.(*ProxyServer).isWriteRequest(p0, p2)", true)), 1, "cookie only after write requests", "")
+	isW, isAF := "http.(*ProxyServer).isWriteRequest(p0, p2)", "http.(*ProxyServer).isAlwaysForwarded(p0, p2)"
+	c.Guarded("cookie/write-only", ptt, setCookie, gs(GP(isW, true), GP(isAF, true)), 1, "cookie only after requests handled as writes: a write method, or a path that is always forwarded", "")
+	{
+		noDB := G(`\(`+db+` == nil\)|\(nil == `+db+`\)`, true)
+		wh := p.Calls("net/http.ResponseWriter.WriteHeader")
+		c.AfterEdge("cookie/every-write-method", ptt, GP(isW, true), setCookie, wh, 1,
+			"after a successful upstream call every request with a write method gets the cookie before the response is written (unless the tracked database does not exist)", "read-your-writes", noDB)
+		c.AfterEdge("cookie/every-always-forwarded", ptt, GP(isAF, true), setCookie, wh, 1,
+			"... and so does every request whose path is always forwarded", "F48: serveHTTP handles such a GET/HEAD as a write; without the cookie the client's next read on a replica does not wait for it", noDB)
+		c.AfterEdge("cookie/always-forward-consulted", ptt, GP(isW, false), p.Calls("http.(*ProxyServer).isAlwaysForwarded"), wh, 1,
+			"a request that is not a write by method is still tested against the always-forward patterns before the response is written", "the classification in serveHTTP and the cookie decision must agree on what a write is")
+	}
 	c.Guarded("cookie/upstream-ok", ptt, setCookie, gs(GP("(net/http.(*Transport).RoundTrip(p0.HTTPTransport, p2)#1 == nil)", true)), 1, "cookie only when the upstream call succeeded", "")
 	fn := c.F(ptt)
 	for _, in := range Instrs(fn, setCookie) {
